@@ -1406,6 +1406,210 @@ fn c14_restore_with_commit_in_flight(dir: PathBuf) -> ScenFut<'static> {
     })
 }
 
+/// create_checkpoint flushes the immutable memtable itself while the flush task flushes the
+/// same memtable.
+fn c02_checkpoint_flush_vs_task_flush(dir: PathBuf) -> ScenFut<'static> {
+    Box::pin(async move {
+        let res = std::thread::spawn(move || -> Result<(), String> {
+            let rt = tokio::runtime::Builder::new_multi_thread().worker_threads(4).enable_all().build().map_err(|e| e.to_string())?;
+            rt.block_on(async move {
+                let cfg = Cfg { level_count: 3, l0_max_files: 2, max_bytes_for_level: 1 << 20, ..base_cfg() };
+                let store = dir.join("store");
+                let t = std::sync::Arc::new(cfg.open(&store).map_err(|e| e.to_string())?);
+                put(&t, &[(b"k", b"v1"), (b"other", b"x")]).await?;
+                t.verif_rotate().map_err(|e| e.to_string())?;
+                let ctl = crate::e3::ctl();
+                ctl.reset();
+                let gate = ctl.arm_gate("flush.after_sst");
+                let (tc, ck) = (t.clone(), dir.join("ck"));
+                let h = tokio::runtime::Handle::current();
+                let cp = std::thread::spawn(move || {
+                    let _g = h.enter();
+                    tc.create_checkpoint(&ck).map(|_| ()).map_err(|e| e.to_string())
+                });
+                if !gate.wait_parked(5000) {
+                    gate.release();
+                    let _ = cp.join();
+                    ctl.reset();
+                    return Err("harness: the checkpoint's flush did not reach flush.after_sst".into());
+                }
+                // what the flush task and ordinary life do meanwhile (they may have to wait)
+                let th = t.clone();
+                let h2 = tokio::runtime::Handle::current();
+                let life = std::thread::spawn(move || -> Result<(), String> {
+                    h2.block_on(async {
+                        let _ = th.verif_flush_one();
+                        put(&th, &[(b"k", b"v2")]).await?;
+                        th.verif_rotate().map_err(|e| e.to_string())?;
+                        let _ = th.verif_flush_one();
+                        let _ = th.verif_compact_once();
+                        Ok(())
+                    })
+                });
+                std::thread::sleep(std::time::Duration::from_millis(400));
+                gate.release();
+                let rcp = cp.join().map_err(|_| "checkpoint thread panicked".to_string())?;
+                life.join().map_err(|_| "helper panicked".to_string())??;
+                ctl.reset();
+                let live = get1(&t, b"k");
+                let layout = t.verif_layout().map_err(|e| e.to_string())?;
+                let mut ids: Vec<u64> = layout.tables.iter().map(|x| x.id).collect();
+                ids.sort_unstable();
+                let dup = ids.windows(2).any(|w| w[0] == w[1]);
+                let img = dir.join("img");
+                crate::props::c12::copy_dir(&store, &img).map_err(|e| e.to_string())?;
+                let _ = std::fs::remove_file(img.join("LOCK"));
+                if let Ok(t) = std::sync::Arc::try_unwrap(t) {
+                    close(t).await;
+                }
+                let what = format!("k = v1 committed, memtable rotated; create_checkpoint flushes it and is held after writing the table file while the flush task's entry point flushes the same memtable, then k = v2 is committed, flushed and level 0 compacted; the checkpoint's flush resumes (create_checkpoint returned {:?})", rcp);
+                match live {
+                    Ok(Some(v)) if v == b"v2" => {}
+                    other => return Err(format!("{what}: the running store reads k = {:?} instead of v2", other.map(|v| v.map(|v| String::from_utf8_lossy(&v).to_string())))),
+                }
+                if dup {
+                    return Err(format!("{what}: a table id is installed twice: {ids:?}"));
+                }
+                match cfg.open(&img) {
+                    Err(e) => Err(format!("{what}: the directory as it is now (process crash) does not open: {e}")),
+                    Ok(t2) => {
+                        let v = get1(&t2, b"k");
+                        close(t2).await;
+                        match v {
+                            Ok(Some(v)) if v == b"v2" => Ok(()),
+                            other => Err(format!("{what}: after a process crash k = {:?}", other.map(|v| v.map(|v| String::from_utf8_lossy(&v).to_string())))),
+                        }
+                    }
+                }
+            })
+        })
+        .join()
+        .map_err(|_| "scenario thread panicked".to_string())?;
+        res
+    })
+}
+
+/// restore_from_checkpoint while a flush of the timeline it discards has written its table
+/// file and not yet installed it.
+fn c14_restore_during_flush(dir: PathBuf) -> ScenFut<'static> {
+    Box::pin(async move {
+        let res = std::thread::spawn(move || -> Result<(), String> {
+            let rt = tokio::runtime::Builder::new_multi_thread().worker_threads(4).enable_all().build().map_err(|e| e.to_string())?;
+            rt.block_on(async move {
+                let cfg = base_cfg();
+                let store = dir.join("store");
+                let t = std::sync::Arc::new(cfg.open(&store).map_err(|e| e.to_string())?);
+                for i in 0..10u8 {
+                    put(&t, &[(format!("base{i}").as_bytes(), b"old")]).await?;
+                }
+                let ck = dir.join("ck");
+                t.create_checkpoint(&ck).map_err(|e| e.to_string())?;
+                put(&t, &[(b"late", b"from-the-discarded-timeline"), (b"base0", b"overwritten-after-checkpoint")]).await?;
+                t.verif_rotate().map_err(|e| e.to_string())?;
+                let ctl = crate::e3::ctl();
+                ctl.reset();
+                let gate = ctl.arm_gate("flush.after_sst");
+                let tf = t.clone();
+                let h = tokio::runtime::Handle::current();
+                let flusher = std::thread::spawn(move || {
+                    let _g = h.enter();
+                    tf.verif_flush_one().map(|_| ()).map_err(|e| e.to_string())
+                });
+                if !gate.wait_parked(5000) {
+                    gate.release();
+                    let _ = flusher.join();
+                    ctl.reset();
+                    return Err("harness: the flush did not reach flush.after_sst".into());
+                }
+                let (tr, ckr) = (t.clone(), ck.clone());
+                let h2 = tokio::runtime::Handle::current();
+                let restorer = std::thread::spawn(move || {
+                    let _g = h2.enter();
+                    tr.restore_from_checkpoint(&ckr).map(|_| ()).map_err(|e| e.to_string())
+                });
+                std::thread::sleep(std::time::Duration::from_millis(400));
+                gate.release();
+                let _ = flusher.join();
+                restorer.join().map_err(|_| "restore thread panicked".to_string())?.map_err(|e| format!("restore failed: {e}"))?;
+                ctl.reset();
+                for i in 0..3u8 {
+                    put(&t, &[(format!("new{i}").as_bytes(), b"n")]).await?;
+                }
+                let late = get1(&t, b"late")?;
+                let base0 = get1(&t, b"base0")?;
+                if let Ok(t) = std::sync::Arc::try_unwrap(t) {
+                    close(t).await;
+                }
+                let what = "checkpoint; `late` committed and base0 overwritten; the memtable is rotated and its flush has written the table file, not yet installed it; restore_from_checkpoint; the flush resumes; three new commits";
+                if late.is_some() || base0.as_deref() != Some(&b"old"[..]) {
+                    return Err(format!("{what}: late present: {}, base0 = {:?} (the flush of the discarded timeline installed its table into the restored manifest)", late.is_some(), base0.map(|v| String::from_utf8_lossy(&v).to_string())));
+                }
+                let t2 = cfg.open(&store).map_err(|e| format!("{what}: the store does not reopen: {e}"))?;
+                let ok = get1(&t2, b"new2")?.is_some() && get1(&t2, b"late")?.is_none();
+                close(t2).await;
+                if !ok {
+                    return Err(format!("{what}: after close and reopen the state is not the checkpoint plus the new commits"));
+                }
+                Ok(())
+            })
+        })
+        .join()
+        .map_err(|_| "scenario thread panicked".to_string())?;
+        res
+    })
+}
+
+/// The commit-log clean-up that a flush schedules runs after a restore to an older checkpoint.
+fn c14_wal_cleanup_after_restore(dir: PathBuf) -> ScenFut<'static> {
+    Box::pin(async move {
+        // the scenario's own runtime is a current-thread one: the clean-up task queued by the
+        // second checkpoint's flush runs at the next suspension point - after the restore
+        surrealkv::verif::set_manual_background(false);
+        let r: Result<(), String> = async {
+            let cfg = base_cfg();
+            let store = dir.join("store");
+            let t = cfg.open(&store).map_err(|e| e.to_string())?;
+            let (ck_a, ck_b) = (dir.join("ckA"), dir.join("ckB"));
+            put(&t, &[(b"a", b"1")]).await?;
+            t.create_checkpoint(&ck_a).map_err(|e| e.to_string())?;
+            tokio::task::yield_now().await;
+            tokio::time::sleep(std::time::Duration::from_millis(20)).await;
+            put(&t, &[(b"b", b"2")]).await?;
+            t.create_checkpoint(&ck_b).map_err(|e| e.to_string())?;
+            t.restore_from_checkpoint(&ck_a).map_err(|e| format!("restore: {e}"))?;
+            let durable = |k: &'static [u8]| {
+                let t = &t;
+                async move {
+                    let mut tx = t.begin().map_err(|e| e.to_string())?;
+                    tx.set_durability(surrealkv::Durability::Immediate);
+                    tx.set(k, &b"after-restore"[..]).map_err(|e| e.to_string())?;
+                    tx.commit().await.map_err(|e| e.to_string())
+                }
+            };
+            durable(b"c").await?;
+            tokio::time::sleep(std::time::Duration::from_millis(40)).await;
+            durable(b"d").await?;
+            let img = dir.join("img");
+            crate::props::c12::copy_dir(&store, &img).map_err(|e| e.to_string())?;
+            let _ = std::fs::remove_file(img.join("LOCK"));
+            close(t).await;
+            let t2 = cfg.open(&img).map_err(|e| format!("crash image does not open: {e}"))?;
+            let (a, b, c, d) = (get1(&t2, b"a")?, get1(&t2, b"b")?, get1(&t2, b"c")?, get1(&t2, b"d")?);
+            close(t2).await;
+            if a.is_none() || b.is_some() || c.is_none() || d.is_none() {
+                return Err(format!(
+                    "commit a; checkpoint A; commit b; checkpoint B (its flush schedules the removal of released commit-log segments); restore A at once; c and d committed with immediate durability; process crash: a present: {}, b present: {}, c present: {}, d present: {} - the clean-up task ran after the restore and removed the segment the restored store writes to",
+                    a.is_some(), b.is_some(), c.is_some(), d.is_some()
+                ));
+            }
+            Ok(())
+        }
+        .await;
+        surrealkv::verif::set_manual_background(true);
+        r
+    })
+}
+
 fn c14_version_index_not_restored(dir: PathBuf) -> ScenFut<'static> {
     Box::pin(async move {
         let cfg = ver_cfg(true);
@@ -3104,6 +3308,53 @@ fn c17_wakeup_lost_before_idle(dir: PathBuf) -> ScenFut<'static> {
     })
 }
 
+/// Eight concurrent writers, each committing values of a good half of a memtable under keys
+/// of its own; the store's own background tasks are running.
+fn c04_disjoint_writers_refused(dir: PathBuf) -> ScenFut<'static> {
+    Box::pin(async move {
+        let res = std::thread::spawn(move || -> Result<(), String> {
+            let rt = tokio::runtime::Builder::new_multi_thread().worker_threads(8).enable_all().build().map_err(|e| e.to_string())?;
+            surrealkv::verif::set_manual_background(false);
+            let r = rt.block_on(async move {
+                let cfg = Cfg { max_memtable_size: 64 * 1024, memtable_stall: 100_000, l0_stall: 100_000, l0_max_files: 4, level_count: 3, max_bytes_for_level: 1 << 22, ..base_cfg() };
+                let t = std::sync::Arc::new(cfg.open(&dir).map_err(|e| e.to_string())?);
+                let failed = std::sync::Arc::new(std::sync::Mutex::new(Vec::<(String, String)>::new()));
+                let mut hs = vec![];
+                for w in 0..8u8 {
+                    let (t, failed) = (t.clone(), failed.clone());
+                    hs.push(tokio::spawn(async move {
+                        for i in 0..60u32 {
+                            let key = format!("w{w}-{i:03}");
+                            if let Err(e) = put(&t, &[(key.as_bytes(), &vec![w; 36 * 1024][..])]).await {
+                                failed.lock().unwrap().push((key, e));
+                            }
+                        }
+                    }));
+                }
+                for h in hs {
+                    let _ = h.await;
+                }
+                let failed = failed.lock().unwrap().clone();
+                if let Ok(t) = std::sync::Arc::try_unwrap(t) {
+                    close(t).await;
+                }
+                if let Some((k, e)) = failed.first() {
+                    return Err(format!(
+                        "8 writers, each committing 36 KiB values under keys of its own (memtable 64 KiB, no key shared, no conflict possible): {} of 480 commits were refused, the first one ({k}) with: {e} - the apply step, which runs outside the commit lock, retried only once after rotating the memtable and found the fresh one filled by another committer",
+                        failed.len()
+                    ));
+                }
+                Ok(())
+            });
+            surrealkv::verif::set_manual_background(true);
+            r
+        })
+        .join()
+        .map_err(|_| "scenario thread panicked".to_string())?;
+        res
+    })
+}
+
 fn c04_rollback_forgets_earlier_committer(dir: PathBuf) -> ScenFut<'static> {
     Box::pin(async move {
         // the failing transaction writes k once, or several times (its batch then carries the
@@ -3441,6 +3692,12 @@ pub fn all() -> Vec<Scenario> {
             run: c16_footer_redirected_to_valid_block,
         },
         Scenario {
+            id: "C04-disjoint-writers-refused",
+            property: "C04",
+            title: "concurrent writers of disjoint keys with values of half a memtable",
+            run: c04_disjoint_writers_refused,
+        },
+        Scenario {
             id: "C16-filter-block-unchecked",
             property: "C16",
             title: "every byte of a small table file altered in turn, then point lookups of all stored keys",
@@ -3565,6 +3822,24 @@ pub fn all() -> Vec<Scenario> {
             property: "C14",
             title: "restore_from_checkpoint while a commit sits between its commit-log write and its apply",
             run: c14_restore_with_commit_in_flight,
+        },
+        Scenario {
+            id: "C02-checkpoint-flush-vs-task-flush",
+            property: "C02",
+            title: "create_checkpoint and the flush task flush the same immutable memtable",
+            run: c02_checkpoint_flush_vs_task_flush,
+        },
+        Scenario {
+            id: "C14-restore-during-flush",
+            property: "C14",
+            title: "restore_from_checkpoint while a flush has written its table file and not yet installed it",
+            run: c14_restore_during_flush,
+        },
+        Scenario {
+            id: "C14-wal-cleanup-after-restore",
+            property: "C14",
+            title: "the commit-log clean-up scheduled by a flush runs after a restore to an older checkpoint",
+            run: c14_wal_cleanup_after_restore,
         },
         Scenario {
             id: "C14-vlog-writer-after-restore",
